@@ -118,8 +118,21 @@ def run(tier, seed):
     must = [b for b in one if b["conn"] != "up"][: (400 if thorough else 40)]
     stale = [b for b in one if any(a[0] == "reply" and 50 < a[1] < 99 for a in b["hist"]) and b["conn"] == "up"]
     stale = rng.sample(stale, min(len(stale), 300 if thorough else 40))
+    # two calls one after the other: a second copy of the first call's reply routed while the second call is outstanding
+    seq2 = behaviours("gen/Gen_Rpc_seq2.cfg", "gen_seq2")
+
+    def dup_after_reuse(b):
+        h = b["hist"]
+        if ["wake", 1] not in h or ["insert", 2] not in h:
+            return False
+        i2 = h.index(["insert", 2])
+        ends = [i for i, a in enumerate(h) if a in (["wake", 2], ["cleanup", 2])]
+        e = ends[0] if ends else len(h)
+        return h.index(["wake", 1]) < i2 and any(a == ["route", 1] for a in h[i2:e])
+    seq2 = [b for b in seq2 if dup_after_reuse(b)]
+    seq2 = seq2 if thorough else rng.sample(seq2, min(len(seq2), 40))
     late = [b for b in one if any(a[0] == "timeout" for a in b["hist"]) and any(a[0] == "route" for a in b["hist"])][: (200 if thorough else 25)]
-    scen = {json.dumps(b["hist"]) + b["conn"]: b for b in sample_one + must + late + stale + two}
+    scen = {json.dumps(b["hist"]) + b["conn"]: b for b in sample_one + must + late + stale + two + seq2}
     scen = list(scen.values())
     for i, s in enumerate(scen):
         s["id"] = i
